@@ -483,7 +483,14 @@ fn conc_case(seed: u64, cap: usize, nprod: usize, per_prod: u64, closer: bool) -
             fulls += 1;
             let started = calls.partition_point(|s| *s < f.s_ret) as i64;
             let released = rels.partition_point(|s| *s < f.s_call) as i64;
-            if started - released < cap as i64 {
+            // Judged only where stamp order implies visibility: on x86-64 the
+            // stamp is a locked RMW, so a slot release stamped before this
+            // call is visible to it. Under Miri's weak-memory emulation the
+            // Acquire load of the slot stamp may legitimately return an older
+            // value (no happens-before links the consumer's release to this
+            // push), and the resulting `Full` is not a violation.
+            let judged = cfg!(target_arch = "x86_64") && !cfg!(miri);
+            if judged && started - released < cap as i64 {
                 viol.push(("C12/spurious-full".into(), format!("push of {:x} returned Full although at most {} messages could be held then (capacity {})", f.val, started - released, cap)));
                 if viol.len() > 8 {
                     break;
@@ -524,7 +531,7 @@ pub fn run(opts: &Opts) -> Report {
         seq_part(&mut rep, opts);
     }
     if want("conc") {
-        let n = if cfg!(miri) { 1 } else { opts.n(400, 8000) };
+        let n = if cfg!(miri) { opts.nshards as u64 } else { opts.n(400, 8000) };
         for case in 0..n {
             if !opts.mine(case) {
                 continue;
